@@ -1,6 +1,7 @@
 import Swat4.Drv.Common
 import Swat4.Drv.Store
 import Swat4.Model.Heartbeat
+import Swat4.Model.Heartbeat6
 import Swat4.Drv.UCRun
 /-!
 # Driver helpers shared by the reporter properties C04, C05, C06
@@ -28,10 +29,46 @@ def parseIp (s : String) : Option Nat :=
 inductive Op where
   | dg (ip port : Nat) (payload : Bytes)
   | adv (ns : Nat)
-  /-- a datagram from a non-IPv4 source (`To4() = nil`): it can own no server -/
-  | dg6 (port : Nat) (payload : Bytes)
+  /-- a datagram from a non-IPv4 source (`To4() = nil`): it can own no server; `src` = the 16 bytes of `connAddr.IP` -/
+  | dg6 (src : Bytes) (port : Nat) (payload : Bytes)
   /-- a use case of another component run to completion in between (a probe outcome, a cleanup, …): `ucops.Client` spec -/
   | uc (spec : USpec)
+
+/-- one `:`-separated piece of an IPv6 text address: 1..4 hex digits (two bytes) -/
+def parseHexGroup (s : String) : Option Bytes :=
+  if s.length = 0 ∨ s.length > 4 then none
+  else
+    (s.toList.foldlM (fun (acc : Nat) (c : Char) =>
+      if '0' ≤ c ∧ c ≤ '9' then some (acc * 16 + (c.toNat - '0'.toNat))
+      else if 'a' ≤ c ∧ c ≤ 'f' then some (acc * 16 + (c.toNat - 'a'.toNat + 10))
+      else if 'A' ≤ c ∧ c ≤ 'F' then some (acc * 16 + (c.toNat - 'A'.toNat + 10))
+      else none) 0).map fun n => [UInt8.ofNat (n / 256), UInt8.ofNat (n % 256)]
+
+/-- the pieces of one side of `::` (or of the whole address): hex groups, the last one possibly a dotted quad -/
+def parseIp6Groups : List String → Option Bytes
+  | [] => some []
+  | [g] =>
+    if g.contains '.' then (parseIp g).map Heartbeat.ipBytes else parseHexGroup g
+  | g :: rest => do
+    let a ← parseHexGroup g
+    let b ← parseIp6Groups rest
+    pure (a ++ b)
+
+/-- an IPv6 text address (`net.ParseIP` forms the generator uses: hex groups, one optional `::`, an optional
+trailing dotted quad) as its 16 bytes -/
+def parseIp6 (s : String) : Option Bytes :=
+  let side (t : String) : Option Bytes := if t = "" then some [] else parseIp6Groups (t.splitOn ":")
+  match s.splitOn "::" with
+  | [all] =>
+    match side all with
+    | some b => if b.length = 16 then some b else none
+    | none => none
+  | [l, r] =>
+    match side l, side r with
+    | some lb, some rb =>
+      if lb.length + rb.length ≤ 14 then some (lb ++ List.replicate (16 - lb.length - rb.length) 0 ++ rb) else none
+    | _, _ => none
+  | _ => none
 
 def splitOps : List String → List (List String)
   | [] => [[]]
@@ -49,10 +86,11 @@ def parseOp : List String → Option Op
   | ["adv", ns] => do
     let ns ← nat? ns
     pure (.adv ns)
-  | ["dg6", _, port, hex] => do
+  | ["dg6", ip, port, hex] => do
+    let src ← parseIp6 ip
     let port ← nat? port
     let b ← hex? hex
-    pure (.dg6 port b)
+    pure (.dg6 src port b)
   | ["uc", spec] => (parseSpec spec).map .uc
   | _ => none
 
@@ -107,20 +145,19 @@ def runOps : List Op → List String → AbsState → Int → String → String 
     | some recs => some ({ dg := ⟨ip, port, payload, now⟩, before := st, after := st', outcome := oc, implOutcome := o, ucDiff := pend,
                            implBefore := implPrev, implAfter := implAfter, modelBefore := modelPrev, modelAfter := modelAfter } :: recs)
   | .dg _ _ _ :: _, _, _, _, _, _, _ => none
-  | .dg6 port payload :: ops, o :: d :: out, st, now, implPrev, modelPrev, pend =>
-    -- challenge and availability requests do not look at the source; everything else from a non-IPv4 source is an
-    -- error without effect (`addr.New` rejects it, the keepalive owner check compares against `To4() = nil`)
+  | .dg6 src port payload :: ops, o :: d :: out, st, now, implPrev, modelPrev, pend =>
+    -- the model of the dispatcher for a source given as `connAddr.IP` bytes (Model/Heartbeat6.lean): challenge and
+    -- availability requests do not look at the source; everything else from a non-IPv4 source is an error without
+    -- effect (`C05.dispatch6_non_ipv4`: `addr.New` rejects it, the keepalive owner check compares against `To4() = nil`)
     let noIPv4 : Nat := 4294967296
-    let (st', oc) := match payload with
-      | t :: _ => if t.toNat = Facts.reporterMsgChallenge ∨ t.toNat = Facts.reporterMsgAvailable then dispatch cfg st 0 port payload now else (st, Outcome.err)
-      | [] => (st, Outcome.panic)
+    let (st', oc) := Heartbeat6.dispatch6 cfg st src port payload now
     let implAfter := if d = "=" then implPrev else d
     let modelAfter := joinDump (dumpState st')
     match runOps ops out st' now implAfter modelAfter none with
     | none => none
     | some recs => some ({ dg := ⟨noIPv4, port, payload, now⟩, before := st, after := st', outcome := oc, implOutcome := o, ucDiff := pend,
                            implBefore := implPrev, implAfter := implAfter, modelBefore := modelPrev, modelAfter := modelAfter } :: recs)
-  | .dg6 _ _ :: _, _, _, _, _, _, _ => none
+  | .dg6 _ _ _ :: _, _, _, _, _, _, _ => none
 
 def records (args out : List String) : Option (List StepRec) :=
   match args with
